@@ -67,6 +67,65 @@ Section PartialsState.
   Definition after (s : St) (h : list call) : St := fold_left do_call h s.
 End PartialsState.
 
+(* Which partials EXIST.  Engine.Render finds the compiled template by an exact map key:
+
+     templateInstance, ok := e.templates[templateName]
+     if !ok { return nil, errors.Errorf(`Template %s not found!`, templateName) }
+     err := templateInstance.ExecuteTemplate(ctx, result, templateName, convert(data), e.Trace)
+
+   and compileDir fills e.templates with exactly one key per file <key>.ast.json below
+   template/page (key = path.Join(dirname, filename) without the suffix).  [tree] is that
+   set of keys, [exec] the execution of a template that was found.  The requested name is
+   NOT resolved like a file path: "b/", "./b", "x/../b", "../T" are other keys than "b". *)
+Section Lookup.
+  Variable tree : list bytes.
+  Variable exec : bytes -> option bytes.
+
+  Definition render_lookup (n : bytes) : option bytes :=
+    if mem n tree then exec n else None.
+End Lookup.
+
+(* S: a partial p of T exists iff the literal name T.partial/p is a file of the tree *)
+Definition partial_exists (tree : list bytes) (t p : bytes) : bool :=
+  mem (partial_name t p) tree.
+
+(* S: what the property demands of the result of a request, in terms of the tree only *)
+Definition spec17 (tree : list bytes) (exec : bytes -> option bytes) (t : bytes) (ps : list bytes)
+           (r : option (list (bytes * bytes))) : Prop :=
+  match r with
+  | Some m =>
+    (forall p, In p ps -> partial_exists tree t p = true) /\
+    NoDup (keys m) /\ (forall x, In x (keys m) <-> In x ps) /\
+    (forall p, In p ps -> lookup p m = exec (partial_name t p) /\ lookup p m <> None)
+  | None =>
+    exists p, In p ps /\ (partial_exists tree t p = false \/ exec (partial_name t p) = None)
+  end.
+
+(* A lookup that resolves the requested name like a relative file path before it
+   consults the tree (empty and "." segments dropped, ".." removes the segment before
+   it).  Only used as a counter-model: see Proofs [resolving_lookup_refuted]. *)
+Definition slash : ascii := "/"%char.
+
+Fixpoint split_slash (s cur : bytes) : list bytes :=
+  match s with
+  | [] => [rev cur]
+  | c :: r => if Ascii.eqb c slash then rev cur :: split_slash r [] else split_slash r (c :: cur)
+  end.
+
+Fixpoint resolve_segs (segs stack : list bytes) : list bytes :=
+  match segs with
+  | [] => rev stack
+  | s :: r =>
+    if beqb s [] || beqb s (B ".") then resolve_segs r stack
+    else if beqb s (B "..") then resolve_segs r (tl stack)
+    else resolve_segs r (s :: stack)
+  end.
+
+Definition resolve_path (n : bytes) : bytes := join [slash] (resolve_segs (split_slash n []) []).
+
+Definition resolving_lookup (tree : list bytes) (exec : bytes -> option bytes) (n : bytes) : option bytes :=
+  render_lookup tree exec (resolve_path n).
+
 (* maps compared as maps *)
 Definition map_equiv (m m' : list (bytes * bytes)) : Prop :=
   forall k, lookup k m = lookup k m'.
